@@ -11,7 +11,7 @@ import threading
 
 import vlib
 
-TIMEOUT = 30
+TIMEOUT = 900      # only a guard against machinery deadlocks (the machine may be heavily loaded)
 
 
 class Sched:
